@@ -20,9 +20,10 @@ def main():
     for name in names:
         d = os.path.join(ROOT, "seeded", "srv-" + name)
         meta = json.load(open(os.path.join(d, "meta.json")))
-        cmd = meta["commands"][2].split("VERIF_REPO=/tmp/seed/srv ")[1].split()
+        wt, rest = meta["commands"][2].split("VERIF_REPO=")[1].split(" ", 1)
+        cmd = rest.split()
         subprocess.run(["sh", os.path.join(ROOT, "tools", "srv_bite.sh"), name] + cmd, cwd=ROOT,
-                       stdout=subprocess.DEVNULL)
+                       stdout=subprocess.DEVNULL, env=dict(os.environ, SRV_BITE_W=wt))
         out = open(os.path.join(d, "output.txt")).read()
         viol = [l for l in out.split("\n") if l.startswith("VIOLATION")]
         summ = [l for l in out.split("\n") if re.search(r"quick: ", l)]
